@@ -147,6 +147,10 @@ type crPhase struct {
 	Resume   bool     `json:"resume"`
 	Puts     []string `json:"puts"`
 	Finalize bool     `json:"finalize"`
+	// Crashed: this (earlier) phase itself ended in a crash inside Finalize, after the index had
+	// reached the disk and before the CARv2 header write: the image the next phase resumes from
+	// has the finished file's bytes with the 40 header bytes still zero.
+	Crashed bool `json:"crashed,omitempty"`
 }
 
 type crShape struct {
@@ -155,19 +159,21 @@ type crShape struct {
 }
 
 type crSession struct {
-	Kind   string  `json:"kind"`
-	O      sOpts   `json:"o"`
-	Roots  []string `json:"roots"`
-	Shape  crShape `json:"shape"`
-	base   []byte // image before the last phase
-	ops    []wop  // operations of the last phase
-	ackAt  map[string]int // block id -> number of ops issued when its Put returned (last phase)
-	putAt  map[string]int // block id -> number of ops issued when its Put was called
-	prior  []string       // blocks acknowledged in earlier phases
-	final  []byte
+	Kind  string         `json:"kind"`
+	O     sOpts          `json:"o"`
+	Roots []string       `json:"roots"`
+	Shape crShape        `json:"shape"`
+	base  []byte         // image before the last phase
+	ops   []wop          // operations of the last phase
+	ackAt map[string]int // block id -> number of ops issued when its Put returned (last phase)
+	putAt map[string]int // block id -> number of ops issued when its Put was called
+	prior []string       // blocks acknowledged in earlier phases
+	final []byte
 }
 
 var hookMu sync.Mutex
+
+var errResumeRefused = errors.New("resume of the crashed image refused")
 
 // openStoreOn opens (or resumes) a store of the given kind over path / mem.
 func openStoreOn(kind, path string, mem *memFile, roots []string, o sOpts, resume bool) (realStore, error) {
@@ -237,6 +243,10 @@ func (s *crSession) record(dir string) error {
 		}
 		st, err := openStoreOn(s.Kind, path, mem, s.Roots, s.O, ph.Resume)
 		if err != nil {
+			if pi > 0 && s.Shape.Phases[pi-1].Crashed {
+				// refusing to resume a crashed file is acceptable (C06); there is no session to enumerate then
+				return errResumeRefused
+			}
 			return fmt.Errorf("phase %d open: %w", pi, err)
 		}
 		for _, id := range ph.Puts {
@@ -260,6 +270,20 @@ func (s *crSession) record(dir string) error {
 			}
 		} else if s.Kind == "blockstore" {
 			st.Discard()
+		}
+		if ph.Crashed && !last && !s.O.V1 {
+			// the header is the last write of Finalize: without it bytes 11..50 are still zero
+			zero := make([]byte, 40)
+			if s.Kind == "blockstore" {
+				f, err := os.OpenFile(path, os.O_WRONLY, 0)
+				if err != nil {
+					return err
+				}
+				f.WriteAt(zero, 11)
+				f.Close()
+			} else if len(mem.data) >= 51 {
+				copy(mem.data[11:51], zero)
+			}
 		}
 	}
 	s.ops = append([]wop{}, log...)
@@ -298,21 +322,21 @@ func (s *crSession) wkind(o wop) string {
 }
 
 type crObs struct {
-	Sid      int      `json:"sid"`
-	I        int      `json:"i"`
-	K        int      `json:"k"`
-	Call     string   `json:"call"`
-	Wkind    string   `json:"wkind"`
-	Torn     bool     `json:"torn"`
-	Acked    []string `json:"acked"`
-	Put      []string `json:"put"`
-	Reopen   string   `json:"reopen"` // ok | err
-	Intact   bool     `json:"intact"` // refused reopen: every acknowledged section still on disk
-	Keys     []string `json:"keys"`
-	Unknown  int      `json:"unknown"` // listed keys that are no block of the alphabet / never put
-	GetOK    bool     `json:"getok"`
-	ContOK   bool     `json:"contok"`
-	Msg      string   `json:"msg"`
+	Sid     int      `json:"sid"`
+	I       int      `json:"i"`
+	K       int      `json:"k"`
+	Call    string   `json:"call"`
+	Wkind   string   `json:"wkind"`
+	Torn    bool     `json:"torn"`
+	Acked   []string `json:"acked"`
+	Put     []string `json:"put"`
+	Reopen  string   `json:"reopen"` // ok | err
+	Intact  bool     `json:"intact"` // refused reopen: every acknowledged section still on disk
+	Keys    []string `json:"keys"`
+	Unknown int      `json:"unknown"` // listed keys that are no block of the alphabet / never put
+	GetOK   bool     `json:"getok"`
+	ContOK  bool     `json:"contok"`
+	Msg     string   `json:"msg"`
 }
 
 var crExtra = []string{"b6", "b9"}
@@ -573,19 +597,22 @@ var _ = runtime.NumCPU
 
 func crashShapes(thorough bool) []crShape {
 	sh := []crShape{
-		{"put2-finalize", []crPhase{{false, []string{"b1", "b4"}, true}}},
-		{"empty-finalize", []crPhase{{false, nil, true}}},
-		{"boundary-blocks", []crPhase{{false, []string{"b12", "b13", "b5"}, true}}},
-		{"finalized-then-resumed", []crPhase{{false, []string{"b1"}, true}, {true, []string{"b4"}, true}}},
-		{"discarded-then-resumed", []crPhase{{false, []string{"b1", "b5"}, false}, {true, []string{"b4"}, true}}},
-		{"resumed-no-puts", []crPhase{{false, []string{"b1", "b4"}, true}, {true, nil, true}}},
+		{"put2-finalize", []crPhase{{false, []string{"b1", "b4"}, true, false}}},
+		{"empty-finalize", []crPhase{{false, nil, true, false}}},
+		{"boundary-blocks", []crPhase{{false, []string{"b12", "b13", "b5"}, true, false}}},
+		{"finalized-then-resumed", []crPhase{{false, []string{"b1"}, true, false}, {true, []string{"b4"}, true, false}}},
+		{"discarded-then-resumed", []crPhase{{false, []string{"b1", "b5"}, false, false}, {true, []string{"b4"}, true, false}}},
+		// the first session itself crashed inside Finalize (index on disk, header not yet): the resumed session's
+		// crash points include tearing a section over the stale index bytes
+		{"crashed-in-finalize-then-resumed", []crPhase{{false, []string{"b1", "b4"}, true, true}, {true, []string{"b13", "b9"}, true, false}}},
+		{"resumed-no-puts", []crPhase{{false, []string{"b1", "b4"}, true, false}, {true, nil, true, false}}},
 	}
 	if thorough {
 		sh = append(sh,
-			crShape{"put3-mixed-hashes", []crPhase{{false, []string{"b6", "b8", "b10", "b1"}, true}}},
-			crShape{"twice-resumed", []crPhase{{false, []string{"b1"}, true}, {true, []string{"b4"}, false}, {true, []string{"b14"}, true}}},
-			crShape{"resume-then-discard-style", []crPhase{{false, []string{"b13"}, false}, {true, []string{"b14", "b3"}, false}}},
-			crShape{"big-block", []crPhase{{false, []string{"b15"}, true}}},
+			crShape{"put3-mixed-hashes", []crPhase{{false, []string{"b6", "b8", "b10", "b1"}, true, false}}},
+			crShape{"twice-resumed", []crPhase{{false, []string{"b1"}, true, false}, {true, []string{"b4"}, false, false}, {true, []string{"b14"}, true, false}}},
+			crShape{"resume-then-discard-style", []crPhase{{false, []string{"b13"}, false, false}, {true, []string{"b14", "b3"}, false, false}}},
+			crShape{"big-block", []crPhase{{false, []string{"b15"}, true, false}}},
 		)
 	}
 	return sh
@@ -597,6 +624,8 @@ func crashConfigs(thorough bool) []sOpts {
 		{Maxcid: 2048, Codec: "sorted", Dpad: 1, Ipad: 7},
 		{Maxcid: 2048, Codec: "mh", V1: true},
 		{Maxcid: 2048, Codec: "mh", Ident: true},
+		// index padding + ZeroLengthSectionAsEOF: a resume reads through the padding of an interrupted Finalize
+		{Maxcid: 2048, Codec: "mh", Ipad: 100, Zero: true},
 	}
 	if thorough {
 		c = append(c, sOpts{Maxcid: 2048, Codec: "mh", Dpad: 1413, Ipad: 1407, Ident: true, Dup: true},
@@ -625,7 +654,10 @@ func runCrashEnum(args []string) int {
 		for _, o := range crashConfigs(thorough) {
 			for _, sh := range crashShapes(thorough) {
 				s := &crSession{Kind: kind, O: o, Roots: []string{"b1"}, Shape: sh}
-				if err := s.record(dir); err != nil {
+				if err := s.record(dir); err == errResumeRefused {
+					rep.count("crashed_images_whose_resume_is_refused", 1)
+					continue
+				} else if err != nil {
 					rep.inconclusive(fmt.Sprintf("session %s/%s %+v could not be recorded: %v", kind, sh.Name, o, err))
 					continue
 				}
